@@ -286,23 +286,38 @@ Section Bridge.
   Qed.
 
   (* BEGIN among the bytes written, for ANY reads: the stream contains, as a
-     complete line, an OK with a valid hexadecimal GUID, and on a UNIX transport a
-     later complete line AGREE_UNIX_FD or ERROR *)
+     complete line, an OK with a valid hexadecimal GUID, after it a stretch of
+     complete lines none of which is REJECTED (the OK stands) and in which, on a
+     UNIX transport, there is AGREE_UNIX_FD or ERROR *)
+  Theorem begin_only_after_standing_ok_reads unix chunks :
+    In (Send w_BEGIN) (reads_outs unix chunks) ->
+    exists a l b1 b2, lines_of chunks = a ++ l :: b1 ++ b2 /\ ok_line l = true /\
+      (forall r, In r b1 -> str_eqb (word r) w_REJECTED = false) /\
+      (unix = true -> exists l', In l' b1 /\ fd_answer_line l' = true).
+  Proof.
+    intros I. apply (in_map ev_of) in I. rewrite reads_trace in I. cbn [ev_of] in I.
+    unfold tx_part in I. apply filter_In in I as [I _].
+    apply in_split in I as (pre & post & E).
+    destruct (begin_only_after_ok user lookup nonce sha1hex unix _ pre post E) as (p1 & l & p2 & -> & O & NR & U).
+    pose proof (proj2 (trace_parts unix (lines_of chunks))) as R. rewrite E in R.
+    rewrite !rx_lines_app in R. cbn [rx_lines flat_map app] in R.
+    fold (rx_lines p2) in R. fold (rx_lines post) in R. rewrite <- app_assoc in R. cbn [app] in R.
+    exists (rx_lines p1), l, (rx_lines p2), (rx_lines post). split; [symmetry; exact R|].
+    split; [exact O|]. split.
+    { intros r Ir. unfold rx_lines in Ir. apply in_flat_map in Ir as (e & Ie & Ir).
+      destruct e; cbn in Ir; try contradiction. destruct Ir as [<-|[]]. apply NR, Ie. }
+    intros Hu. destruct (U Hu) as (l' & I' & F). exists l'. split; [|exact F].
+    unfold rx_lines. apply in_flat_map. exists (Rx l'). split; [exact I' | left; reflexivity].
+  Qed.
+
   Theorem begin_only_after_ok_reads unix chunks :
     In (Send w_BEGIN) (reads_outs unix chunks) ->
     exists a l b, lines_of chunks = a ++ l :: b /\ ok_line l = true /\
       (unix = true -> exists l', In l' b /\ fd_answer_line l' = true).
   Proof.
-    intros I. apply (in_map ev_of) in I. rewrite reads_trace in I. cbn [ev_of] in I.
-    unfold tx_part in I. apply filter_In in I as [I _].
-    apply in_split in I as (pre & post & E).
-    destruct (begin_only_after_ok user lookup nonce sha1hex unix _ pre post E) as (p1 & l & p2 & -> & O & U).
-    pose proof (proj2 (trace_parts unix (lines_of chunks))) as R. rewrite E in R.
-    rewrite !rx_lines_app in R. cbn [rx_lines flat_map app] in R.
-    fold (rx_lines p2) in R. fold (rx_lines post) in R. rewrite <- app_assoc in R. cbn [app] in R.
-    exists (rx_lines p1), l, (rx_lines p2 ++ rx_lines post). split; [symmetry; exact R|].
-    split; [exact O|]. intros Hu. destruct (U Hu) as (l' & I' & F). exists l'. split; [|exact F].
-    apply in_or_app. left. unfold rx_lines. apply in_flat_map. exists (Rx l'). split; [exact I' | left; reflexivity].
+    intros I. destruct (begin_only_after_standing_ok_reads unix chunks I) as (a & l & b1 & b2 & E & O & _ & U).
+    exists a, l, (b1 ++ b2). split; [exact E|]. split; [exact O|].
+    intros Hu. destruct (U Hu) as (l' & I' & F). exists l'. split; [apply in_or_app; left; exact I' | exact F].
   Qed.
 
   (* the mechanisms named in the AUTH lines written, for ANY reads *)
